@@ -2667,8 +2667,11 @@ impl Array {
             // e. Set k to k + 1.
         }
         // 4. Sort items using an implementation-defined sequence of calls to SortCompare. If any such call returns an abrupt completion, stop before performing any further calls to SortCompare and return that Completion Record.
+        // NOTE: `slice::sort_by` may panic when the comparison is not a total order, and a
+        // user-supplied `comparefn` need not be one: the merge sort below never panics and
+        // gives some permutation of the items in that case, which is all the specification asks.
         let mut sort_err = Ok(());
-        items.sort_by(|x, y| {
+        let items = Self::merge_sort_by(items, &mut |x, y| {
             if sort_err.is_ok() {
                 sort_compare(x, y, context).unwrap_or_else(|err| {
                     sort_err = Err(err);
@@ -2682,6 +2685,34 @@ impl Array {
 
         // 5. Return items.
         Ok(items)
+    }
+
+    /// Stable merge sort that tolerates a `compare` that is not a total order.
+    fn merge_sort_by<F>(mut items: Vec<JsValue>, compare: &mut F) -> Vec<JsValue>
+    where
+        F: FnMut(&JsValue, &JsValue) -> Ordering,
+    {
+        if items.len() < 2 {
+            return items;
+        }
+        let right = items.split_off(items.len() / 2);
+        let left = Self::merge_sort_by(items, compare);
+        let right = Self::merge_sort_by(right, compare);
+
+        let mut merged = Vec::with_capacity(left.len() + right.len());
+        let mut left = left.into_iter().peekable();
+        let mut right = right.into_iter().peekable();
+        while let (Some(l), Some(r)) = (left.peek(), right.peek()) {
+            // Stability: the right item only goes first when the left one is greater.
+            if compare(l, r) == Ordering::Greater {
+                merged.extend(right.next());
+            } else {
+                merged.extend(left.next());
+            }
+        }
+        merged.extend(left);
+        merged.extend(right);
+        merged
     }
 
     /// Array.prototype.sort ( comparefn )
